@@ -49,6 +49,12 @@ def plan(ctx):
         obs.append(Obligation(f"template.t{i}", "xh", "c07", "template", param={"t": i}, timeout=T * 2,
                               bounds="host ints a (-4..4), b, c symbolic, string s from 3 samples, host list length 0..3",
                               desc=f"SqParser.eval({text!r}) vs reference interpreter on the same tree: value, error class, names afterwards, ops charged"))
+    if not quick:
+        for k in range(8):
+            obs.append(Obligation(f"search.programs.{k}", "xh", "progsearch", "search", param={"first": k}, timeout=900, search=True,
+                                  bounds="TIME-BOXED SEARCH (not exhaustive): programs of 3 lines, expression depth <= 2, decoded from 12 symbolic codes; "
+                                         "host ints a in -2..3, b, budget n symbolic",
+                                  desc="symbolic programs over the real node classes: real eval vs reference interpreter (value, error class, names, ops charged, budget boundary)"))
     return {
         "obligations": obs, "uncovered": uncovered,
         "explanation": "CrossHair (z3): differential symbolic execution of the real evaluator against the reference semantics in "
